@@ -393,7 +393,15 @@ PROPS["C10"] = {
             "(pk, sk bytes), deterministic signatures byte-identical, hedged signatures verify in the reference, external-mu path, verify "
             "decisions on bit flips in c~/z/h regions, wrong lengths, other key/context, crafted boundary signatures made by the reference "
             "with the secret key (||z||∞ = γ1−β−1 accept, = γ1−β reject, hint count = ω accept), non-canonical hint encodings; composite "
-            "ML-DSA accept iff both components accept; non-trivial = every op line, distinct by line hash",
+            "ML-DSA accept iff both components accept; (4) sampling layer on its boundaries, inputs SEARCHED with samplers written from the "
+            "standard and put to the reference (ops rejntt/rejbounded/chb/sampleinball/expandmask): RejNTTPoly streams holding the "
+            "candidates q−1, q, q+1, 2^23−1, 0 (incl. byte triples with bit 23 set), key-generation seeds whose ExpandA/ExpandS hit them "
+            "or need a third SHAKE256 block, RejBoundedPoly on XOF block edges, SampleInBall with j = i / j = i+1 / sign-byte patterns, "
+            "ExpandMask at κ = 0, around the counter carry (κ < 256 ≤ κ+r), at the top of the 16-bit range and with coefficients γ1 / "
+            "−γ1+1; (5) signing-loop history: deterministic signatures needing ≥ 20 / ≥ 37 / ≥ 52 attempts (table found offline + live "
+            "search; the attempt is recovered from the signature alone), and messages with an attempt exactly on a rejection bound of "
+            "Alg. 7 (‖z‖∞, ‖r0‖∞, hint count: largest accepted / smallest refused value) found by the reference (op signscan, table + live "
+            "scan); non-trivial = every op line, distinct by line hash",
     "trusted_base": [KERNEL, TIE, PRIMS, "translator go/harness/translator (go/parser + go/types, whitelisted grammar, refuses unknown "
                      "constructs), validated on every run against the Go originals through export hooks",
                      "GoSem.lean: semantics of crypto/subtle helpers with preconditions as poison values"],
